@@ -14,3 +14,4 @@ def run(rep: Report, repo: Repo, tier: str) -> None:
     writer_rules.rule_indent_plumbing(rep, repo, "C20-R4")
     writer_rules.rule_directive_order(rep, repo, "C20-R5")
     writer_rules.rule_paragraph(rep, repo, "C20-R6")
+    writer_rules.rule_values_verbatim(rep, repo, "C20-R7")
